@@ -349,7 +349,7 @@ func RunC05(c *Ctx) {
 	workload.W6Ints(window, nrand, c.Seed, sink)
 	// the byte sweep over number tokens in W1 gives every byte at every position of short literals
 	workload.W1(false, func(cs *h.Case) {
-		if cs.P[0] >= 177 { // only the three top-level contexts: integer readers see the token first
+		if cs.P[0] >= workload.TopLevelSeeds() { // only the three top-level contexts: integer readers see the token first
 			return
 		}
 		sink(cs)
